@@ -240,6 +240,7 @@ func corpus() []corpusProg {
 		{Key: "tolerant", Main: "tolerant.thrift", Files: map[string]string{"tolerant.thrift": tolerantThrift}},
 		{Key: "structkey", Main: "structkey.thrift", Files: map[string]string{"structkey.thrift": structkeyThrift}},
 	}
+	ps = append(ps, single("intmap", "const map<i32, i32> SQUARES = {2: 4, 3: 9}\nconst map<string, string> NAMES = {\"k\": \"v\"}\nstruct M { 1: map<i64, i64> m = {1: 10} }\n", false))
 	pre := "enum E { A = 1 }\nstruct S { 1: i32 a, 2: optional S next }\ntypedef E TE\ntypedef list<i32> TL\ntypedef map<i32, i32> TM\n"
 	rejects := []struct{ key, body string }{
 		{"r01", "const i32 x = \"str\""},
